@@ -3,6 +3,7 @@ package main
 import (
 	"go/constant"
 	"go/token"
+	"strings"
 
 	"golang.org/x/tools/go/ssa"
 )
@@ -444,6 +445,24 @@ func ruleLabelSetString(r *Run) {
 			of.Fail(r.pos(ret.Pos()), "AsMap returns %s, not a map made in this call", describe(ret.Results[0], 0))
 		}
 	}
+	// every label is copied under its own name with its own value: m[string(k)] = v.AsString() for
+	// the ranged (k, v)
+	nUpd := 0
+	allInstrs(am, func(in ssa.Instruction) {
+		mu, ok := in.(*ssa.MapUpdate)
+		if !ok {
+			return
+		}
+		nUpd++
+		if _, isIter := stripConv(mu.Key).(*ssa.Extract); !isIter {
+			good = false
+			of.Fail(r.pos(mu.Pos()), "a label is published under the name %s, not under its own name (the grouping key uses the raw name)", describe(mu.Key, 1))
+		}
+	})
+	if nUpd != 1 {
+		good = false
+		of.Fail(r.pos(am.Pos()), "expected one map store per label, found %d", nUpd)
+	}
 	al := p.Method(enginePkg, "LabelSet", "AsLokiAPI")
 	if al != nil {
 		for _, ret := range returnsOf(al) {
@@ -662,4 +681,118 @@ func embeddedRoot(v ssa.Value) ssa.Value {
 		}
 		v = fa.X
 	}
+}
+
+// ruleSetClearedPerRecord: the per-record label set is emptied before a record's labels are added:
+// SetFromRecord clears l.labels (itself or through a helper) before its first Set/SetAttrs, or the
+// entry iterator clears the set inside its loop before SetFromRecord.
+func ruleSetClearedPerRecord(r *Run) {
+	p := r.P
+	eng := modPath + "/" + enginePkg
+	sf := p.Method(enginePkg, "LabelSet", "SetFromRecord")
+	o := r.Ob("PV-ORDER", "logqlengine.(*LabelSet).SetFromRecord reset", "labels of one record never leak into the next: the label set is cleared before each record's labels are added")
+	if sf == nil {
+		o.Fail("-", "method not found")
+		return
+	}
+	isClear := func(fn *ssa.Function, in ssa.Instruction, recv ssa.Value, grp []*ssa.Function) bool {
+		onLabels := func(v ssa.Value) bool {
+			f, base, ok := loadOfField(v)
+			if !ok {
+				f, base, ok = fieldNameOf(v)
+			}
+			return ok && f == "labels" && (base == recv || originValueIn(base, grp) == recv)
+		}
+		switch x := in.(type) {
+		case *ssa.Call:
+			if pk, nm := calleePkgName(x); (pk == "maps" || strings.HasSuffix(pk, "exp/maps")) && nm == "Clear" && len(x.Call.Args) == 1 && onLabels(x.Call.Args[0]) {
+				return true
+			}
+			if bi, ok := x.Call.Value.(*ssa.Builtin); ok && bi.Name() == "clear" && len(x.Call.Args) == 1 && onLabels(x.Call.Args[0]) {
+				return true
+			}
+		}
+		return false
+	}
+	grp := funcGroup(sf)
+	var clears []ssa.Instruction
+	for _, gf := range grp {
+		allInstrs(gf, func(in ssa.Instruction) {
+			if isClear(gf, in, sf.Params[0], grp) {
+				clears = append(clears, in)
+			}
+		})
+	}
+	var adds []ssa.Instruction
+	for _, c := range callsIn(sf) {
+		if callIs(c, eng, "(*LabelSet).Set") || callIs(c, eng, "(*LabelSet).SetAttrs") {
+			adds = append(adds, c)
+		}
+	}
+	inSF := len(clears) > 0 && len(adds) > 0
+	for _, a := range adds {
+		ok := false
+		for _, c := range clears {
+			if runsBefore(c, a, sf, grp) {
+				ok = true
+			}
+		}
+		if !ok {
+			inSF = false
+		}
+	}
+	if inSF {
+		o.OK("the set is cleared before the first of %d Set/SetAttrs call(s)", len(adds)).At(r.pos(sf.Pos()))
+		return
+	}
+	// otherwise the iterator must clear the set for every record, inside its loop
+	nx := p.Method(enginePkg, "entryIterator", "Next")
+	if nx != nil {
+		ngrp := funcGroup(nx)
+		for _, gf := range ngrp {
+			for _, c := range callsIn(gf) {
+				if !callIs(c, eng, "(*LabelSet).SetFromRecord") {
+					continue
+				}
+				for _, k := range callsIn(gf) {
+					callee := staticCallee(k)
+					if callee == nil || callee.Pkg != sf.Pkg || len(k.Common().Args) == 0 || k.Common().Args[0] != c.Common().Args[0] {
+						continue
+					}
+					clearsAll := false
+					for _, hf := range funcGroup(callee) {
+						allInstrs(hf, func(in ssa.Instruction) {
+							if isClear(hf, in, callee.Params[0], funcGroup(callee)) {
+								clearsAll = true
+							}
+						})
+					}
+					// same loop iteration: the clearing call dominates SetFromRecord and lies in every loop that contains it
+					if clearsAll && instrDominates(k, c) {
+						sameLoops := true
+						for _, l := range rangeIndexLoops(gf) {
+							if l.Blocks[c.Block()] && !l.Blocks[k.Block()] {
+								sameLoops = false
+							}
+						}
+						for _, b := range gf.Blocks {
+							for _, sc := range b.Succs {
+								if sc.Dominates(b) {
+									nl := naturalLoop(sc)
+									if nl[c.Block()] && !nl[k.Block()] {
+										sameLoops = false
+									}
+								}
+							}
+						}
+						if sameLoops {
+							o.OK("the iterator clears the set before SetFromRecord for every record").At(r.pos(k.Pos()))
+							return
+						}
+					}
+				}
+			}
+		}
+	}
+	o.Fail(r.pos(sf.Pos()), "the label set is not cleared before a record's labels are added (neither in SetFromRecord nor per record in the entry iterator): labels of a rejected record leak into the next entry")
 }
